@@ -40,8 +40,11 @@ def plan(tier, seed):
 def make_tables(rng, qgram):
     out = []
     words = ['aa', 'bb', 'cc', 'dd']
+    degenerate = rng.random()
     for side in 'lr':
         n = rng.randint(3, 8)
+        if degenerate < 0.05 and side == rng.choice('lr'):
+            n = 0                                   # a table without rows
         vals = []
         for i in range(n):
             r = rng.random()
@@ -56,6 +59,8 @@ def make_tables(rng, qgram):
         order = list(range(n))
         rng.shuffle(order)
         vals = [vals[i] for i in order]
+        if 0.05 <= degenerate < 0.10 and side == 'l':
+            vals = [None] * n                       # every join value missing on one side
         r = rng.random()
         if r < 0.45:
             keys = rng.sample(range(1000), n)
@@ -70,10 +75,14 @@ def make_tables(rng, qgram):
             side + 'bool': ([rng.random() < 0.5 for _ in range(n)], 'bool'),
             side + 'str': (['s%d' % rng.randint(0, 3) for _ in range(n)], 'str'),
             side + 'obj': ([None if rng.random() < 0.3 else rng.choice(['o1', 'o2', 7]) for _ in range(n)], 'object'),
+            # attribute names that are substrings of the key attribute's name (lkey / rkey)
+            'key': (['k%d' % rng.randint(0, 5) for _ in range(n)], 'object'),
+            side + 'k': ([rng.randint(0, 3) for _ in range(n)], 'int64'),
+            'e': (['e%d' % i for i in range(n)], 'object'),
         }
         names = list(extras)
         rng.shuffle(names)
-        names = names[:rng.randint(0, 5)]
+        names = names[:rng.randint(0, 6)]
         cols = [side + 'key', side + 'join'] + names
         rng.shuffle(cols)
         data = {side + 'key': keys, side + 'join': vals}
